@@ -272,9 +272,12 @@ func (t *Thread) end(args []Value, err error, exception interface{}) {
 	verifThread("dead", t, caller)
 	err = t.cleanupCloseStack(nil, 0, err) // TODO: not nil
 	t.closeErr = err
-	caller.sendResumeValues(args, err, exception)
+	// Release before handing control back: once the caller has received the
+	// values it runs concurrently with this goroutine, which must no longer
+	// touch the runtime context.
 	verifThread("release", t, caller)
 	t.ReleaseBytes(2 << 10) // The goroutine will terminate after this
+	caller.sendResumeValues(args, err, exception)
 }
 
 func (t *Thread) call(c Callable, args []Value, next Cont) error {
